@@ -105,14 +105,16 @@ RefMeasure(kind) == RefMoment(kind, ZeroAlpha(kind))
 RefMeasureInv(kind) == CASE kind \in {"tri", "wedge"} -> 2 [] kind = "tet" -> 6 [] OTHER -> 1
 
 \* --- which monomials a rule of order n has to integrate exactly --------------
-\* total degree <= n on simplices, degree <= n per direction on tensor-product cells, prism:
-\* total degree <= n in the triangle plane and degree <= n along the axis
+\* total degree <= n on simplices and on the prism, degree <= n per direction on tensor-product cells
 Tuples(d, n) == [1..d -> 0..n]
 MonomialOK(kind, n, alpha) ==
   CASE kind = "point" -> TRUE
     [] kind \in {"line", "quad", "hex"} -> \A i \in DOMAIN alpha : alpha[i] <= n
     [] kind \in {"tri", "tet"} -> SumSeq(alpha) <= n
-    [] kind = "wedge" -> alpha[1] + alpha[2] <= n /\ alpha[3] <= n
+    \* prism: only what the statement says for every cell -- total degree <= n.  (The library's rule, triangle x segment,
+    \* also integrates degree <= n in the plane times degree <= n along the axis; a rule of total degree n that is
+    \* not such a product would be just as good, so the larger set is not demanded.)
+    [] kind = "wedge" -> SumSeq(alpha) <= n
 Monomials(kind, n) == {alpha \in Tuples(CellDim(kind), Max2(n, 0)) : MonomialOK(kind, Max2(n, 0), alpha)}
 NumMonomials(kind, n) ==
   LET m == Max2(n, 0) IN
@@ -121,15 +123,15 @@ NumMonomials(kind, n) ==
     [] kind = "quad" -> (m + 1) * (m + 1)
     [] kind = "hex"  -> (m + 1) * (m + 1) * (m + 1)
     [] kind = "tri"  -> ((m + 1) * (m + 2)) \div 2
-    [] kind = "tet"  -> ((m + 1) * (m + 2) * (m + 3)) \div 6
-    [] kind = "wedge" -> (((m + 1) * (m + 2)) \div 2) * (m + 1)
+    [] kind \in {"tet", "wedge"} -> ((m + 1) * (m + 2) * (m + 3)) \div 6
 
 \* --- tolerances (named; absolute, resolution 2^-56) ---------------------------
 \* quadrature sums: 2^-42 of the cell measure (+ the oracle's own truncation)
 TolQuadBits == 42
 TolQuad(kind) == FxAdd(FxDivSmall(FxTol(TolQuadBits), RefMeasureInv(kind)), FxUlp(64))
-\* a node may violate an in-cell inequality by table round-off only
-TolNode == FxTol(48)
+\* a node may violate an in-cell inequality by table round-off only (observed: never; 2^-42 = the level at which the
+\* rules themselves are judged -- a boundary node that is tabulated as -1e-15 is a rounded table, not a misplaced node)
+TolNode == FxTol(42)
 \* sums / pairings of assembled numbers (relative to a stated integer scale)
 TolSum  == FxTol(40)
 \* maps, Jacobians, normals
